@@ -63,6 +63,33 @@ def _fails(t, env):
         return True
 
 
+def _eval_with_handlers(terms_, env):
+    """values of the summary terms with the handlers that actually run: every try's flag starts out false; whenever computing
+    a result fails the way a missing key does, the innermost try that result still counts on is the one that caught it.  The
+    results share the flags, as the code shares the try statements."""
+    flags = []
+    for t_ in terms_:
+        for x in walk(t_):
+            if isinstance(x, Sym) and x.kind == "exc" and x not in flags:
+                flags.append(x)
+    for x in flags:
+        env[x] = False
+    got = None
+    for _ in range(len(flags) + 1):
+        try:
+            got = tuple(evaluate(t_, env) for t_ in terms_)
+            break
+        except (LookupError, TypeError, ValueError) as ex_:
+            failing = next(t_ for t_ in terms_ if _fails(t_, env))
+            cand = [x for x in walk(failing) if isinstance(x, Sym) and x.kind == "exc" and not env[x]]
+            if not cand:
+                got = "<raises %s>" % type(ex_).__name__
+                break
+            serial = lambda x_: int(x_.name.rsplit("#", 1)[1]) if "#" in x_.name and x_.name.rsplit("#", 1)[1].isdigit() else 0
+            env[max(cand, key=serial)] = True       # (flags are numbered in the order the try statements are entered)
+    return got
+
+
 def check_lookups(rep, prog):
     """every subscript chain into the chip data uses lower-cased hex keys / str() numbers and has a KeyError fallback"""
     rule = "C20.R4.lookup-discipline"
@@ -121,27 +148,7 @@ def check_lookups(rep, prog):
                     # which handlers run: every try's flag starts out false; whenever computing a result fails the way a missing
                     # key does, the innermost try that result still counts on is the one that caught it.  Both results share the
                     # flags, as the code shares the try statements.
-                    terms_ = (rgi[0][1], rgi[1][1])
-                    flags = []
-                    for t_ in terms_:
-                        for x in walk(t_):
-                            if isinstance(x, Sym) and x.kind == "exc" and x not in flags:
-                                flags.append(x)
-                    for x in flags:
-                        env[x] = False
-                    got = None
-                    for _ in range(len(flags) + 1):
-                        try:
-                            got = tuple(evaluate(t_, env) for t_ in terms_)
-                            break
-                        except (LookupError, TypeError, ValueError) as ex_:
-                            failing = next(t_ for t_ in terms_ if _fails(t_, env))
-                            cand = [x for x in walk(failing) if isinstance(x, Sym) and x.kind == "exc" and not env[x]]
-                            if not cand:
-                                got = "<raises %s>" % type(ex_).__name__
-                                break
-                            serial = lambda x_: int(x_.name.rsplit("#", 1)[1]) if "#" in x_.name and x_.name.rsplit("#", 1)[1].isdigit() else 0
-                            env[max(cand, key=serial)] = True       # (flags are numbered in the order the try statements are entered)
+                    got = _eval_with_handlers((rgi[0][1], rgi[1][1]), env)
                     ent = data_.get(mm.lower(), {}).get("registers", {}).get(rr.lower())
                     want_name = ent[0] if ent is not None else "id:%s inst:%s" % (rr.upper(), ii)
                     addr = ent[1].get(str(ii)) if ent is not None else None
@@ -158,6 +165,30 @@ def check_lookups(rep, prog):
                   PD + ".get_reg_data", "except KeyError", "the register name and the register address do not fall back independently: when "
                   "only the address of this instance is missing the known register name is replaced by the raw id/instance text as well "
                   "(%s)" % bad)
+    # the signature name and the bit description fall back independently too: a known signature whose bit has no description
+    # keeps its name
+    bad = None
+    nsig = 0
+    sig_full = {"20da": {"signatures": {"abcd": ["SIG_NAME", {"3": "bit three"}], "1234": ["ONLY_NAME", {}]}, "registers": {}}}
+    try:
+        for data_ in (sig_full, {}, {"20da": {}}, {"20da": {"signatures": {}}}, {"20da": {"signatures": {"abcd": ["N2", {"7": "seven"}]}}}):
+            for mm, ss, ii, bb in (("20DA", "ABCD", 1, 3), ("20da", "abcd", 0, 4), ("20DA", "1234", 2, 3), ("20DA", "FFFF", 1, 3), ("5678", "ABCD", 1, 7),
+                                   ("20DA", "ABCD", 255, 7)):
+                env = pelx.with_heap(I, {CD: data_, m: mm, sid: ss, inst: ii, bit: bb})
+                got = _eval_with_handlers((results["get_sig_desc"],), env)
+                got = got[0] if isinstance(got, tuple) else got
+                ent = data_.get(mm.lower(), {}).get("signatures", {}).get(ss.lower())
+                nm = ent[0] if ent is not None else "id:" + ss.upper()
+                ds = ent[1].get(str(bb), "") if ent is not None else ""
+                want = "%s(%d)[%s] %s" % (nm, ii, bb, ds)
+                nsig += 1
+                if got != want and bad is None:
+                    bad = "model %s signature %s instance %d bit %d with chip data %r: shown as %r, documented %r" % (mm, ss, ii, bb, data_, got, want)
+        rep.count("signature look-up samples evaluated", nsig)
+        rep.check(bad is None, rule, "get_sig_desc: name and bit description each fall back on their own", PD + ".get_sig_desc", "except KeyError",
+                  "the signature name and the bit description do not fall back independently (%s)" % bad)
+    except CannotEval as e_:
+        rep.count("signature look-up summary not runnable (%s)" % str(e_)[:60], 1)
     hs = [e for e in I.events if e.kind == "handler" and e.func.startswith(PD + ".get_")]
     rep.check(not hs or all(h.data[1] in ("KeyError", "LookupError", "(KeyError, IndexError)", "(KeyError, IndexError, TypeError)", "Exception") for h in hs), rule,
               "fallback handlers catch KeyError", PD, "except KeyError", "fallback handlers catch %s" % sorted({h.data[1] for h in hs}))
@@ -176,6 +207,29 @@ def check_lookups(rep, prog):
                 bad = bad or "_check_int(%d, %d) raises" % (val, nbytes)
     rep.check(bad is None, rule, "range validation accepts every value of a 1-/2-byte field (0..255, 0..65535 inclusive)", PD + "._check_int",
               "assert lb <= data <= ub", "a legal field value is rejected by the argument validation: %s" % bad)
+    # ... and the hex validation accepts the words as the callers hand them over: SRC words arrive upper case (%08X), signature
+    # list words lower case (bytes.hex()) - both are valid, in every getter and in get_signature itself
+    bad = None
+    nhex = 0
+    for val, nbytes in (("20DA", 2), ("20da", 2), ("ABCDEF", 3), ("abcdef", 3), ("00", 1), ("fF", 1), ("FFFFFFFF", 4), ("0123abCD", 4), ("9999", 2)):
+        ev0 = len(I2.events)
+        I2.method(pr2, "_check_hex", [Const(val), Const(nbytes)])
+        nhex += 1
+        for e in I2.events[ev0:]:
+            if e.kind in ("assert", "raise"):
+                cond = e.data[0] if e.kind == "assert" else not_(e.guard)
+                try:
+                    okv = bool(evaluate(cond, pelx.with_heap(I2, {})))
+                except CannotEval:
+                    okv = cond == TRUE
+                except Exception:
+                    okv = False
+                if not okv:
+                    bad = bad or "_check_hex(%r, %d) rejects it (%s)" % (val, nbytes, repr(cond)[:80])
+    rep.count("hex validation samples", nhex)
+    rep.check(bad is None, rule, "hex validation accepts upper-, lower- and mixed-case words of the right length", PD + "._check_hex",
+              "assert re_map[num_bytes].fullmatch(data)", "a well-formed hex word is rejected by the argument validation: %s - SRC words are "
+              "handed over upper case, signature list words lower case" % bad)
     # data file discovery
     I3 = Interpreter(prog)
     pd3 = I3.new(PD)
